@@ -31,7 +31,7 @@ for p in props:
 man={
  "version":1,
  "setup_cmd":"./setup.sh",
- "hooks":{"guard":"verif","enable":"contract files /repo/**/zz_verif_contracts.go carry //go:build verif and contain only comments; govc reads them with go/parser, no tag is passed to the compiler","baseline_off_cmd":"cd /repo && . /verif/env.sh && go test -vet=off -count=1 ./...","source_commits":[h.split()[0] for h in hooks],"add_only":True},
+ "hooks":{"guard":"verif","enable":"contract files /repo/**/zz_verif_contracts*.go carry //go:build verif and contain only comments; govc reads them with go/parser, no tag is passed to the compiler","baseline_off_cmd":"cd /repo && . /verif/env.sh && go test -vet=off -count=1 ./...","source_commits":[h.split()[0] for h in hooks],"add_only":True},
  "engines":[{"name":"govc","path":"/verif/govc","serves_properties":sorted(pm.keys()),"kind_free_text":"deductive verifier for Go written for this task: go/packages+go/ssa (naive form) -> symbolic execution with loop cutting at invariants and state merging -> SMT-LIB obligations -> z3 5.1.0 / z3 4.8.12 / cvc5 1.0.3"}],
  "checks":checks,
  "not_applicable":nas,
